@@ -162,6 +162,9 @@ func c11Random(c *Case) {
 		e = xref.Path{Start: xref.Group{X: e}, Steps: []*xref.Step{g.FreeStep(names)}}
 		setOnly = true
 	}
+	if c.expensive(e, d) {
+		return
+	}
 	src := xref.Render(e)
 	want, ok, why := refNodeSet(e, xref.NewCtx(ctx))
 	if !ok {
